@@ -483,7 +483,7 @@ fn pat_ident(p: &Pat) -> Option<String> {
 
 pub fn coq_ty(t: &Ty) -> Option<String> {
     Some(match t {
-        Ty::Int(_) | Ty::NonZero | Ty::Addr | Ty::ISize | Ty::Ptr | Ty::Slice => "N".into(),
+        Ty::Int(_) | Ty::NonZero | Ty::Addr | Ty::ISize | Ty::Ptr | Ty::Slice | Ty::TPtr(_) => "N".into(),
         Ty::Either(a, b) => format!("({} + {})%type", coq_ty(a)?, coq_ty(b)?),
         Ty::Bool => "bool".into(),
         Ty::Unit => "unit".into(),
@@ -975,8 +975,23 @@ impl<'a> Ctx<'a> {
                 })
             }
             Expr::Cast(c) => {
-                let to = self.spec.ty_of(&c.ty);
+                let mut to = self.spec.ty_of(&c.ty);
+                if let Type::Ptr(tp) = &*c.ty {
+                    // `p as *mut u64`: the same address, accessed with that width
+                    to = match norm(&*tp.elem).as_str() {
+                        "u64" | "usize" => Ty::TPtr(8),
+                        "u32" => Ty::TPtr(4),
+                        "u16" => Ty::TPtr(2),
+                        "u8" => Ty::TPtr(1),
+                        _ => Ty::Ptr,
+                    };
+                }
                 self.expr(&c.expr, &|cx, t| match (&t.ty, &to) {
+                    (Ty::Ptr, Ty::TPtr(_)) | (Ty::Ptr, Ty::Ptr) => k(cx, Tm { ty: to.clone(), ..t }),
+                    // narrowing: the low bits
+                    (Ty::Int(64), Ty::Int(b)) | (Ty::Addr, Ty::Int(b)) if *b < 64 => {
+                        k(cx, Tm::app(format!("{} mod {}", t.s, 1u128 << *b), to.clone()))
+                    }
                     (Ty::Int(a), Ty::Int(b)) if a <= b => k(cx, Tm { ty: to.clone(), ..t }),
                     (Ty::NonZero, Ty::Int(64)) | (Ty::Addr, Ty::Int(64)) => k(cx, Tm { ty: to.clone(), ..t }),
                     // isize is represented by its bit pattern, a pointer by its address
@@ -1089,6 +1104,12 @@ impl<'a> Ctx<'a> {
                     }
                 }
                 unsup("indexing (declare the access as an opaque call)", e.span())
+            }
+            Expr::Macro(m) if m.mac.path.is_ident("unreachable") => {
+                if !self.monadic {
+                    return Err(TErr::NeedMonad);
+                }
+                Ok(format!("Panic {}", line_of(m.mac.path.span())))
             }
             Expr::Macro(m) => unsup(&format!("macro `{}` in expression position", norm(&m.mac.path)), e.span()),
             Expr::Closure(cl) => {
@@ -1640,6 +1661,10 @@ impl<'a> Ctx<'a> {
                 match &t.ty {
                     ty if is_int(ty) => parts.push(t.s.clone()),
                     Ty::Ptr | Ty::Slice => parts.push(t.s.clone()),
+                    Ty::TPtr(w) => {
+                        parts.push(t.s.clone());
+                        parts.push(format!("{}", w));
+                    }
                     Ty::Bool => parts.push(format!("(N.b2n {})", t.s)),
                     Ty::Unit => {}
                     _ => return unsup("non-integer argument of an effect call", sp),
@@ -1731,6 +1756,42 @@ impl<'a> Ctx<'a> {
         let name = mc.method.to_string();
         let line = line_of(mc.method.span());
         let args: Vec<&Expr> = mc.args.iter().collect();
+        // self.iter().map(F).fold(INIT, G)  ->  (INIT, fun <extras of F> => F .., G)
+        if let (Some(grp), "fold", 2) = (self.spec.iter_fold, name.as_str(), args.len()) {
+            if let Expr::MethodCall(mapc) = &*mc.receiver {
+                if mapc.method == "map" && mapc.args.len() == 1 && self.nk(&*mapc.receiver) == "self . iter ()" {
+                    let fname = match &mapc.args[0] {
+                        Expr::Path(p) => p.path.segments.last().unwrap().ident.to_string(),
+                        _ => return unsup("iter_fold: the mapped function is not a path", mapc.span()),
+                    };
+                    let sig = match self.sigs.get(&format!("{}::{}", grp, fname)).cloned() {
+                        Some(s) => s,
+                        None => return unsup(&format!("iter_fold: `{}` is not a kernel of group {}", fname, grp), mapc.span()),
+                    };
+                    let g = match &args[1] {
+                        Expr::Path(p) => match p.path.segments.last().unwrap().ident.to_string().as_str() {
+                            "max" => "N.max",
+                            "min" => "N.min",
+                            _ => return unsup("iter_fold: the combining function is not max / min", mc.span()),
+                        },
+                        _ => return unsup("iter_fold: the combining function is not a path", mc.span()),
+                    };
+                    if sig.monadic && !self.monadic {
+                        return Err(TErr::NeedMonad);
+                    }
+                    let mut coq = sig.coq.clone();
+                    if sig.module != self.spec.module {
+                        coq = format!("Gen.{}.{}", sig.module, coq);
+                    }
+                    let xs = sig.extra.join(" ");
+                    let f = format!("(fun {} => {}{} {})", xs, coq, if sig.monadic { " m" } else { "" }, xs);
+                    return self.expr(args[0], &|c, init| {
+                        k(c, Tm { s: format!("({}, {}, {})", init.s, f, g), ty: Ty::Unknown, atomic: false })
+                    });
+                }
+            }
+            return unsup("iter_fold: expected self.iter().map(F).fold(INIT, G)", mc.span());
+        }
         // opaque unit-returning calls of effect kernels
         if self.spec.effects.iter().any(|m| *m == name) {
             let mut all: Vec<&Expr> = vec![];
@@ -1890,6 +1951,8 @@ impl<'a> Ctx<'a> {
                     }
                     k(c, Tm::app(format!("checked_mul_i64 {} {}", recv.s, a.s), Ty::Opt(Box::new(Ty::ISize))))
                 }),
+                // the failure of an opaque effect call is not modelled
+                (Ty::Unit, "unwrap") if args.is_empty() => k(c, recv.clone()),
                 (Ty::Opt(_), "is_none") => k(c, Tm::app(format!("match {} with Some _ => false | None => true end", recv.s), Ty::Bool)),
                 (Ty::Opt(_), "is_some") => k(c, Tm::app(format!("match {} with Some _ => true | None => false end", recv.s), Ty::Bool)),
                 (Ty::Opt(inner), "unwrap") => {
